@@ -6,14 +6,19 @@ exit and hang-up placed between any two system calls by a schedule.  Direct orac
        likewise with before = all pending text, nothing consumed; EOF is final (later calls: EOF again, nothing more)
   C01  everything handed back (before+after of the successful calls, before at EOF) followed by what is pending and what the
        kernel still holds is exactly what the peer wrote."""
+import os
+
+from . import common
+from .common import clist, cnat, cbool, ctext
 from . import transport_sim as T
 
 
-def run(ctx, pexpect, which_prop, n):
+def run(ctx, pexpect, which_prop, n, max_model=2000):
     rng = ctx.rng
     tried = 0
     outcomes = {'match': 0, 'EOF': 0, 'TIMEOUT': 0}
     nhit = 0
+    cases = []
     for it in range(n):
         which = rng.choice([0, 0, 1, 2])
         buf0 = bytes(rng.choice(b'ab') for _ in range(rng.choice([0, 0, 1, 3, 6])))
@@ -29,6 +34,7 @@ def run(ctx, pexpect, which_prop, n):
         c, ctxm = T.make_reader(pexpect, which, sim, use_poll)
         c.maxread = rng.choice([1, 2, 5, 2000])
         calls = []
+        model_calls, obs = [], []
         handed = b''
         eof_seen = False
         bad = None
@@ -50,6 +56,16 @@ def run(ctx, pexpect, which_prop, n):
                 except Exception as e:
                     bad = 'call %d raised %r' % (k, e)
                     break
+                # for the model (Compose/Run.v): the call and everything observable after it
+                model_calls.append('({| ckind := KExact; pats := %s; W := None |}, %s)' % (
+                    clist(['(PStr %s)' % ctext(p_) if isinstance(p_, bytes) else ('PEof' if p_ is pexpect.EOF else 'PTimeout') for p_ in pats]), cbool(t0)))
+                if exc is None and c.after not in (pexpect.EOF, pexpect.TIMEOUT):
+                    enc_r = [0, idx, c.before, c.after]
+                elif exc == 'EOF' or c.after is pexpect.EOF:
+                    enc_r = [1, [] if idx is None else [idx], c.before]
+                else:
+                    enc_r = [2, [] if idx is None else [idx], c.before]
+                obs.append([enc_r, c._before.getvalue(), c._buffer.getvalue(), sim.state(), len(sim.sched)])
                 # what the peer has written so far (replay of the consumed part of the schedule on a fresh endpoint)
                 written = b''
                 ksim = T.Sim(buf0, open0, alive0, [])
@@ -103,6 +119,10 @@ def run(ctx, pexpect, which_prop, n):
                 except OSError:
                     pass
         tried += 1
+        if not (bad and 'raised' in bad) and len(cases) < max_model:
+            cases.append(('(%s, %s, %s, %s, %s)' % (cnat(which), cnat(c.maxread), T.coq_kern(buf0, open0, alive0), T.coq_sched(sched), clist(model_calls)),
+                          obs, {'transport': which, 'buf0': list(buf0), 'open': open0, 'alive': alive0, 'sched': repr(sched), 'calls': calls,
+                                'use_poll': use_poll, 'maxread': c.maxread}))
         if bad:
             key = ('C01/sim-expect' if ('handed back' in bad or 'text pending' in bad or 'not yet handed' in bad) else 'C04/sim-expect')
             if which_prop == 'C01' and not key.startswith('C01'):
@@ -116,3 +136,7 @@ def run(ctx, pexpect, which_prop, n):
             if nhit >= 2:
                 break
     ctx.oracle_stats['sim_expect'] = {'histories': tried, 'outcomes': outcomes}
+    if os.path.exists(os.path.join(common.COQ, 'Compose/Run.vo')):
+        ctx.run_cases('expect-over-kernel', ['Transport.Model', 'Base.Rx', 'Expect.Model', 'Compose.Run'], 'run_compose', 'compose_case', cases, shard=300)
+    else:
+        ctx.corr_broken.append(('expect-over-kernel', {'error': 'model did not build'}))
